@@ -32,12 +32,15 @@ Fixpoint tokens (s : str) : option (list tok) :=
 (* bytes net/url leaves alone in a path: letters, digits, - _ . ~ $ & + , / : ; = @ *)
 Definition plain_byte (c : N) : bool := negb (should_escape c EncPath).
 Definition plain (s : str) : bool := forallb plain_byte s.
-(* ! ' ( ) * [ ] : accepted raw by url.validEncoded but escaped by url.escape; a request that
-   encodes one of them gets it back literally (an equivalent URL, not the same text) *)
+(* ! ' ( ) * [ ] : accepted raw by url.validEncoded but escaped by url.escape.  Written raw
+   they are kept as written; a request that percent-ENCODES one of them (in upper-case hex and
+   with nothing else that needs RawPath) gets it back decoded: net/url considers /a%21b and /a!b
+   the same path (see the assumption in checks/C13.json), so these triplets stay outside the domain *)
 Definition lax7 : list N := [33;39;40;41;42;91;93].
+Definition lit_ok (c : N) : bool := plain_byte c || memb c lax7.
 Definition tok_ok (t : tok) : bool :=
   match t with
-  | Lit c => plain_byte c
+  | Lit c => lit_ok c
   | Enc h l => ishex h && ishex l && negb (memb (unhex h * 16 + unhex l) lax7)
   end.
 (* a triplet that url.escape itself would have produced *)
@@ -82,10 +85,14 @@ Definition tmpl_dom (t : target) : bool :=
            | None => plain (t_path t) && no_dollar (t_path t)
            end).
 
-Definition req_dom (t : target) (wire : str) (q : request) : bool :=
+Definition req_dom0 (wire : str) (q : request) : bool :=
   negb (is_nil (q_host q)) && host_plain (q_host q) && ascii (q_query q)
-  && match tokens wire with Some ts => forallb tok_ok ts | None => false end
-  && Bool.eqb (has_prefix (q_path q) (t_strip t)) (has_prefix wire (t_strip t)).
+  && match tokens wire with Some ts => forallb tok_ok ts | None => false end.
+(* the strip prefix is present in the request path as written iff it is present after decoding *)
+Definition strip_consistent (t : target) (wire : str) (q : request) : bool :=
+  Bool.eqb (has_prefix (q_path q) (t_strip t)) (has_prefix wire (t_strip t)).
+Definition req_dom (t : target) (wire : str) (q : request) : bool :=
+  req_dom0 wire q && strip_consistent t wire q.
 
 Definition norm_path (p : str) : str := match p with 47 :: _ => p | _ => 47 :: p end.
 Definition qs (q : str) : str := if is_nil q then [] else 63 :: q.
@@ -99,6 +106,34 @@ Definition expected_location (t : target) (wire : str) (q : request) : str :=
   ++ match path_pat t with
      | Some (pre, post) =>
          norm_path (pre ++ t_prepend t ++ trim_prefix wire (t_strip t) ++ post)
+         ++ qs (if is_nil (t_query t) then q_query q else t_query t)
+     | None => norm_path (t_path t) ++ qs (t_query t)
+     end.
+
+(* ---- finding region 6 (F-C13-6): the strip prefix matches the request path only after
+   percent-decoding (GET /%61bc/... with strip=/abc; the route itself matches on the decoded
+   path).  The specification: strip removes the shortest prefix of the path as written that
+   decodes to the strip text; the rest stays as written. *)
+Definition strip_decoded_only (t : target) (wire : str) (q : request) : bool :=
+  has_prefix (q_path q) (t_strip t) && negb (has_prefix wire (t_strip t)).
+Fixpoint raw_strip (ts : list tok) (st : str) : option (list tok) :=
+  match st with
+  | [] => Some ts
+  | c :: st' => match ts with
+                | t :: ts' => if decode_tok t =? c then raw_strip ts' st' else None
+                | [] => None
+                end
+  end.
+Definition raw_remainder (wire st : str) : str :=
+  match tokens wire with
+  | Some ts => match raw_strip ts st with Some r => render r | None => wire end
+  | None => wire
+  end.
+Definition expected_location_dec (t : target) (wire : str) (q : request) : str :=
+  t_scheme t ++ [58;47;47] ++ replace_first (host_pat t) v_host (q_host q)
+  ++ match path_pat t with
+     | Some (pre, post) =>
+         norm_path (pre ++ t_prepend t ++ raw_remainder wire (t_strip t) ++ post)
          ++ qs (if is_nil (t_query t) then q_query q else t_query t)
      | None => norm_path (t_path t) ++ qs (t_query t)
      end.
@@ -118,6 +153,18 @@ Definition own_scheme (q : request) : str :=
   else if q_tls q then [104;116;116;112;115] else [104;116;116;112].
 Definition points_back (u : url) (q : request) : bool :=
   beq (u_scheme u) (own_scheme q) && beq (u_host u) (q_host q) && beq (u_path u) (q_path q).
+
+(* an independent reading of "the request's own scheme, host and path": host names compare
+   case-insensitively and the scheme's default port may be left out *)
+Definition drop_default_port (scheme h : str) : str :=
+  if beq scheme [104;116;116;112] && has_suffix h [58;56;48] then firstn (length h - 3) h
+  else if beq scheme [104;116;116;112;115] && has_suffix h [58;52;52;51] then firstn (length h - 4) h
+  else h.
+Definition norm_host (scheme h : str) : str := drop_default_port scheme (lower h).
+Definition points_back_norm (u : url) (q : request) : bool :=
+  beq (u_scheme u) (own_scheme q)
+  && beq (norm_host (u_scheme u) (u_host u)) (norm_host (own_scheme q) (q_host q))
+  && beq (u_path u) (q_path q).
 
 (* first host whose route is not a redirect back to the request itself *)
 Fixpoint ref_lookup (q : request) (cands : list (option target)) : option target :=
